@@ -1,5 +1,5 @@
 SPECIFICATION Spec
 CONSTANTS AllRemotes = {"m1", "m2", "m3"}  Ents = {"T", "o1", "o2"}  T = "T"
-INVARIANTS Complete WipeClean StaysRemoved Emit
+INVARIANTS Complete WipeClean StaysRemoved Repeatable Emit
 PROPERTIES Frame ConfFrame Idempotent
 CHECK_DEADLOCK FALSE
